@@ -652,3 +652,27 @@ fn user_sink_defaults() {
     }
     kani::cover!(z == 200 && pn == 3);
 }
+
+// ---- C10: scratch sinks ---------------------------------------------------------------------------
+/// `clear()` turns ANY well-formed sink into the empty sink (HEADER_CRC_BUFFER / FRAME_CRC_BUFFER
+/// are cleared before every use, so header and frame serialisation start from the state the C02 /
+/// C08 units assume).
+//@ unit props=C10,C11 tier=quick kind=complete timeout=300 funcs="MemSink<u8>::clear; MemSink<u64>::clear"
+#[kani::proof]
+#[kani::unwind(12)]
+fn c10_sink_clear() {
+    let (mut s, _id) = any_sink8(2);
+    s.clear();
+    assert!(s.bitlength == 0 && s.storage.is_empty() && s.len() == 0 && s.is_empty());
+    let mut id = Ideal::new();
+    assert!(s.write_lsbs(0x5u8, 3).is_ok());
+    id.push_lsbs(0x5, 3);
+    check8(&s, &id, 4);
+    let (mut s, _id) = any_sink64(2);
+    s.clear();
+    assert!(s.bitlength == 0 && s.storage.is_empty());
+    let mut id = Ideal::new();
+    assert!(s.write_lsbs(0x5u8, 3).is_ok());
+    id.push_lsbs(0x5, 3);
+    check64(&s, &id);
+}
